@@ -389,14 +389,19 @@ func VH_hom(a []string) {
 	vAssert(vAnd(e4 == nil, vIff(rOr, vOr(re, rf))), "or-homomorphic")
 }
 
-// VH_rewrite [encL encR kinds ident modeL modeR m big sameTerms]: two expressions related by a
+// VH_rewrite [encL encR kinds ident modeL modeR m big sameTerms subset]: two expressions related by a
 // Boolean-algebra rewrite get the same verdict under every allowed list, and (unless the
 // rule drops terms) the same set from ExtractLicenses (C10).
 func VH_rewrite(a []string) {
 	encL, encR, kinds, ident, modeL, modeR, m, big, sameTerms := a[0], a[1], a[2], a[3], a[4][0], a[5][0], vAtoi(a[6]), a[7] == "1", a[8] == "1"
 	leaves := vLeaves(kinds, ident)
 	tl, tr := vText(encL, leaves, modeL), vText(encR, leaves, modeR)
-	allowed := vPickAllowed(vUniverse(kinds, ident, big), m)
+	var allowed []string
+	if len(a) > 9 && a[9] == "1" {
+		allowed = vPickSubset(vUniverse(kinds, ident, big), m)
+	} else {
+		allowed = vPickAllowed(vUniverse(kinds, ident, big), m)
+	}
 	vNote("text", "Satisfies("+vShow(tl)+" vs "+vShow(tr)+", "+vShowList(allowed)+")")
 	vNote("sig", encL+"~"+encR+"/"+kinds+"/"+ident+"/"+string(rune(modeL))+string(rune(modeR)))
 	rl, e1 := Satisfies(tl, allowed)
